@@ -80,3 +80,37 @@ def encReadElementStatus (hv : Vals) (ps : List EPage) : List Nat :=
   elementStatusHeader.enc hv ++ (ps.map encElementPage).flatten
 
 end Std
+
+namespace Std
+
+/-! ## PERSISTENT RESERVE IN, READ FULL STATUS (SPC-4 6.15.5) with the fixed-size TransportIDs (SPC-4 7.6.4) -/
+
+/-- FCP TransportID: N_PORT NAME at bytes 8–15 -/
+def tidFcp : Block := ⟨"tid_fcp", 0, 24, [⟨"tpid_format", 0, 7, 2⟩, ⟨"protocol_id", 0, 3, 4⟩, ⟨"n_port_name", 8, 7, 64⟩]⟩
+/-- SBP (IEEE 1394) TransportID: EUI-64 NAME at bytes 8–15 -/
+def tidSbp : Block := ⟨"tid_sbp", 0, 24, [⟨"tpid_format", 0, 7, 2⟩, ⟨"protocol_id", 0, 3, 4⟩, ⟨"eui64_name", 8, 7, 64⟩]⟩
+/-- SRP TransportID: INITIATOR PORT IDENTIFIER at bytes 8–23 -/
+def tidSrp : Block := ⟨"tid_srp", 0, 24, [⟨"tpid_format", 0, 7, 2⟩, ⟨"protocol_id", 0, 3, 4⟩, ⟨"initiator_port_identifier", 8, 7, 128⟩]⟩
+/-- SAS TransportID: SAS ADDRESS at bytes 4–11 -/
+def tidSas : Block := ⟨"tid_sas", 0, 24, [⟨"tpid_format", 0, 7, 2⟩, ⟨"protocol_id", 0, 3, 4⟩, ⟨"sas_address", 4, 7, 64⟩]⟩
+
+/-- the fixed-size TransportID kinds: block, PROTOCOL IDENTIFIER, the library's key for the name, its bytes `[a, b)` -/
+structure TidKind where
+  blk : Block
+  pid : Nat
+  key : String
+  a : Nat
+  b : Nat
+
+def tidKinds : List TidKind :=
+  [⟨tidFcp, 0, "n_port_name", 8, 16⟩, ⟨tidSbp, 3, "eui64_name", 8, 16⟩, ⟨tidSrp, 4, "initiator_port_identifier", 8, 24⟩,
+   ⟨tidSas, 6, "sas_address", 4, 12⟩]
+
+/-- a full status descriptor: 24 fixed bytes (ADDITIONAL DESCRIPTOR LENGTH at bytes 20–23) + TransportID -/
+def encFullStatusDescriptor (d : Vals × TidKind × Vals) : List Nat := fullStatusDescriptor.enc d.1 ++ d.2.1.blk.enc d.2.2
+
+/-- PRGENERATION, ADDITIONAL LENGTH (n−7), full status descriptors -/
+def encReadFullStatus (gen : Nat) (ds : List (Vals × TidKind × Vals)) : List Nat :=
+  toBytes gen 4 ++ toBytes (48 * ds.length) 4 ++ (ds.map encFullStatusDescriptor).flatten
+
+end Std
